@@ -136,7 +136,7 @@ mod verif_c06r {
 
     /// stroke_area / fill_area: the shape grown on every side by the outside part of the stroke and
     /// shrunk by the inside part (non-degenerate: the shrunk shape keeps a positive size).
-    //@harness prop=C06 kind=lemma tier=quick class=P fns=src/primitives/styled.rs::Styled::fill_area;src/primitives/styled.rs::Styled::stroke_area;src/primitives/primitive_style.rs::PrimitiveStyle::stroke_area;src/primitives/primitive_style.rs::PrimitiveStyle::fill_area;src/primitives/rectangle/mod.rs::Rectangle::offset
+    //@harness prop=C06,C02 kind=lemma tier=quick class=P fns=src/primitives/styled.rs::Styled::fill_area;src/primitives/styled.rs::Styled::stroke_area;src/primitives/primitive_style.rs::PrimitiveStyle::stroke_area;src/primitives/primitive_style.rs::PrimitiveStyle::fill_area;src/primitives/rectangle/mod.rs::Rectangle::offset
     #[kani::proof]
     fn c06_rectangle_areas() {
         let r = any_rect(DOM);
@@ -274,7 +274,7 @@ mod verif_c06c {
 
     /// Circle::offset keeps the centre and changes the diameter by 2n: the stroke area is the circle
     /// grown on every side by the outside part, the fill area the circle shrunk by the inside part.
-    //@harness prop=C06 kind=lemma tier=quick class=P fns=src/primitives/circle/mod.rs::Circle::offset;src/primitives/circle/mod.rs::Circle::with_center;src/primitives/circle/mod.rs::Circle::center
+    //@harness prop=C06,C02 kind=lemma tier=quick class=P fns=src/primitives/circle/mod.rs::Circle::offset;src/primitives/circle/mod.rs::Circle::with_center;src/primitives/circle/mod.rs::Circle::center
     #[kani::proof]
     fn c06_circle_areas() {
         let c = any_circle(4096);
